@@ -333,6 +333,8 @@ def explore(tier, seed, model_ok=True, focus=False):
     from props import farm_full_common as ffc
     ex = ffc.merge_exploration(ex, ffc.explore_farm_full("C11", tier, seed, ffc.monitors_for_c11, ffc.nontrivial_all, ffc.RULE, model_ok, focus, scale=0.5))
     # the same module inside the two other hosts: farm-with-locked-rewards and farm-staking (Model/BoostedHosts.v)
+    from props import staking_full_common as sfc
+    ex = sfc.merge_exploration(ex, sfc.explore_staking_full("C11", tier, seed, sfc.monitors_for_c11, sfc.nontrivial_all, sfc.RULE, model_ok, focus, scale=0.5))
     from props import c11_hosts_common as hc
     return hc.merge_exploration(ex, hc.explore_hosts("C11", tier, seed, model_ok, focus, scale=0.5))
 
@@ -348,6 +350,9 @@ def replay_module(data):
 
 
 def replay(data):
+    if data.get("replay", {}).get("system") == "staking-full":
+        from props import staking_full_common as sfc
+        return sfc.replay_staking_full(data, sfc.monitors_for_c11)
     if data.get("replay", {}).get("system") == "farm-full":
         from props import farm_full_common as ffc
         return ffc.replay_farm_full(data, ffc.monitors_for_c11)
